@@ -188,7 +188,7 @@ def scripts(tier, seed, scale=1):
                     lines.append("dq recv")
                     lines.append("dq msg")
                 elif ev == "peek":
-                    if codec != "command":
+                    if codec != "command" or r.random() < 0.6:
                         lines.append("dq peek %d" % r.choice([0, 1, 4, 100]) + (" nodst" if r.random() < 0.4 else ""))
                     else:
                         lines.append("dq get %d %d %s" % (r.choice([0, 1, 3, 7, 20]), r.choice([0, 1, 2, 5, 9, 70]), r.choice(["vec", "vec", "novec"])))
